@@ -15,7 +15,7 @@ RULE = ('Payloads from the C12 generator (both write paths: SignatureArray fast 
         'For each payload EVERY crash point is enumerated: a forked writer is SIGKILLed immediately before its n-th h5py call (attribute '
         'set, dataset creation, dataset write, flush, close) for n = 0..count, plus one kill right after close returned (control). Oracle: '
         'load_signatures on the file left behind either raises, or yields exactly the payload (k-mer spec, IDs, metadata, every '
-        'signature, dtype); the control must load. In addition (1 generated case in 16) the same oracle at SYSTEM-CALL granularity: a fresh writer '
+        'signature, dtype); the control must load. In addition (1 generated case in 16 thorough / 40 quick) the same oracle at SYSTEM-CALL granularity: a fresh writer '
         'process under strace is SIGKILLed on entering its n-th write-type system call (pwrite64/write/ftruncate) on the output file, for every n, '
         'which places crashes inside H5Fclose as well. One evaluation = one (payload, crash point) pair; non-trivial = crash after the '
         'format marker attribute was written and before close returned; distinct by (payload hash, point).')
@@ -221,9 +221,9 @@ def run_case(case, ctx):
 
 @st.composite
 def gen_case(draw, tier):
-	if draw(st.integers(0, 15)) == 15:
-		return {'kind': 'syscall_points', 'payload': draw(P.payload(max_sigs=8, allow_big=False)), 'max_points': 60}
-	p = draw(P.payload(max_sigs=10, allow_big=True))
+	if draw(st.integers(0, 15 if tier == 'thorough' else 39)) == (15 if tier == 'thorough' else 39):
+		return {'kind': 'syscall_points', 'payload': draw(P.payload(max_sigs=8, allow_big=False)), 'max_points': 60 if tier == 'thorough' else 30}
+	p = draw(P.payload(max_sigs=10, allow_big=True, big_rate=(8 if tier == 'thorough' else 20)))
 	return {'kind': 'all_points', 'payload': p, 'preexisting': draw(st.sampled_from([None, 'old_sigfile', None, 'junk', 'old_sigfile']))}
 
 
